@@ -65,6 +65,9 @@ func drvOptions(dir string, variant int) (badger.Options, string) {
 	return o, name
 }
 
+// driverExpFrac is the fraction of driver writes that carry an expiry (C33 raises it).
+var driverExpFrac = 0.2
+
 type shapeRec struct {
 	mu     sync.Mutex
 	shapes map[string]int
@@ -110,7 +113,7 @@ func driverRunX(c *core.Ctx, id string, work string, idx int, managed bool, r *r
 		step := ""
 		switch x := r.Intn(100); {
 		case x < 52:
-			if err := w.RandomCommit(delFrac, 0.2); err != nil {
+			if err := w.RandomCommit(delFrac, driverExpFrac); err != nil {
 				c.Violation(id+"|commit-error", err.Error(), w.Witness())
 				return
 			}
